@@ -185,9 +185,17 @@ impl<'a> Gen<'a> {
             _ => 2 * size.min(8) as usize + 2,
         };
         let mut s = hex_of(val, digits);
-        if size > 8 && self.rng.chance(1, 2) {
-            // wide constant (more than 16 hex digits)
-            s = format!("{}{}", hex_of(self.rng.next(), 16), hex_of(self.rng.next(), 16));
+        if size > 8 {
+            // constants wider than 8 bytes: Ghidra prints at most 16 hex digits, the lifting has to
+            // ZERO-extend the short string (also when bit 63 is set); sometimes a long string
+            s = match self.rng.below(6) {
+                0 => "ffffffffffffffff".to_string(),
+                1 => "8000000000000000".to_string(),
+                2 => hex_of(self.rng.next() | (1u64 << 63), 16),
+                3 => hex_of(self.rng.next() | (1u64 << 63), 1),
+                4 => format!("{}{}", hex_of(self.rng.next(), 16), hex_of(self.rng.next(), 16)),
+                _ => s,
+            };
         }
         if self.rng.chance(1, 12) {
             s = s.to_uppercase();
@@ -271,6 +279,31 @@ impl<'a> Gen<'a> {
         const FCMP: [&str; 4] = ["FLOAT_EQUAL", "FLOAT_NOTEQUAL", "FLOAT_LESS", "FLOAT_LESSEQUAL"];
         const FUN: [&str; 6] = ["FLOAT_NEG", "FLOAT_ABS", "FLOAT_SQRT", "FLOAT_CEIL", "FLOAT_FLOOR", "FLOAT_ROUND"];
         let s = self.size();
+        if self.rng.chance(1, 25) {
+            // wide (10/16/32 byte) operations with a constant operand
+            let w = *self.rng.pick(&[10u64, 16, 16, 32]);
+            let c = self.const_var(w);
+            return match self.rng.below(3) {
+                0 => {
+                    let o = self.output(w, true);
+                    self.def("COPY", o, c, Value::Null, Value::Null)
+                }
+                1 => {
+                    let m = *self.rng.pick(&["INT_AND", "INT_OR", "INT_XOR", "INT_ADD"]);
+                    let (o, a) = (self.output(w, true), self.input(w));
+                    if self.rng.chance(1, 2) {
+                        self.def(m, o, a, c, Value::Null)
+                    } else {
+                        self.def(m, o, c, a, Value::Null)
+                    }
+                }
+                _ => {
+                    let m = *self.rng.pick(&["INT_EQUAL", "INT_LESS", "INT_SLESS"]);
+                    let (o, a) = (self.output(1, true), self.input(w));
+                    self.def(m, o, a, c, Value::Null)
+                }
+            };
+        }
         match self.rng.below(100) {
             0..=11 => {
                 let (o, i) = (self.output(s, true), self.input(s));
@@ -754,6 +787,12 @@ fn emit(out: &mut Out, mut pcode_json: Value, seeds: Vec<u64>, kind: &str) {
                 for k in ["input0", "input1", "input2"] {
                     if d["term"]["rhs"][k].get("address").is_some() {
                         out.count("ram-input");
+                    }
+                    if let Some(v) = d["term"]["rhs"][k].get("value").and_then(|x| x.as_str()) {
+                        let sz = d["term"]["rhs"][k]["size"].as_u64().unwrap_or(0);
+                        if sz > 8 && v.len() <= 16 && u64::from_str_radix(v, 16).map(|x| x >> 63 == 1).unwrap_or(false) {
+                            out.count("wide-const-short-string-bit63");
+                        }
                     }
                 }
                 if d["term"]["lhs"].get("address").is_some() {
